@@ -15,6 +15,7 @@ CFG = {'assumptions': ["64*len(bm) < 2^31 (Go's int32 positions cannot overflow;
         'bitmap.NextOne/sparse': 'bitmap.NextOne (run-length coded bitmap argument; model = int32 model NextOne32)',
         'bitmap.NextPrev/dual': 'NextOne, PrevOne, PrevOne(bm,i,n+1), NextOne(bm,p,end), PrevOne(bm,i,n), '
                                 'NextOne(bm,p+1,end)',
+        'bitmap.Of/walk': 'bitmap.Of(ps[, n]) then the NextOne walk and the PrevOne walk of the whole result',
         'bitmap.PrevOne': 'bitmap.PrevOne',
         'bitmap.PrevOne/iter': 'loop "for end > i { p := PrevOne(bm,i,end); if p < 0 {break}; out = append(out,p); end '
                                '= p }"',
